@@ -112,6 +112,20 @@ def h_net_new(w, st, rec):
     S = w.sempler
     graph = dec(rec["graph"])
     data = [dec(d) for d in rec["data"]]
+    if rec.get("views"):
+        # the caller passes non-contiguous views into larger arrays it owns
+        vs = []
+        for d in data:
+            base = np.zeros((2 * d.shape[0], 2 * d.shape[1]), dtype=d.dtype)
+            base[::2, ::2] = d
+            vs.append(base[::2, ::2])
+        data = vs
+        w.probes["data.non_contiguous_views"] += 1
+    for d in data:
+        if isinstance(d, np.ndarray):
+            w.probes["data.dtype:" + d.dtype.str] += 1
+            if d.ndim == 2 and d.flags.f_contiguous and not d.flags.c_contiguous:
+                w.probes["data.fortran_order"] += 1
     pgraph, pdata = dec(rec["graph"]), [dec(d) for d in rec["data"]]       # the checker's private copy
     kind = rec.get("invalid")
     site = "DRFNet.__init__"
@@ -481,7 +495,7 @@ def h_scribble(w, st, rec):
         if isinstance(b, list):
             for a in b:
                 if isinstance(a, np.ndarray) and a.size:
-                    a += 1000.0
+                    a += 1000
                     done = True
         elif isinstance(b, np.ndarray) and b.size:
             if rec.get("how") == "transpose_edges":
@@ -610,9 +624,10 @@ def gen_graph(g, p):
 
 
 def gen_data(g, p, e, equal_sizes, unique):
-    Ns = [g.randint(2, 40) for _ in range(e)]
+    Ns = [g.randint(2, 40) if g.random() < 0.95 else 1 for _ in range(e)]
     if equal_sizes:
         Ns = [g.choice([g.randint(2, 40), g.randint(16, 40)])] * e
+    form = g.choice(["f8", "f8", "f8", "f8", "i8", "f4", "F", "view"])    # dtype / memory layout of the caller's arrays
     data = []
     for k in range(e):
         N = Ns[k]
@@ -621,11 +636,19 @@ def gen_data(g, p, e, equal_sizes, unique):
         for i in range(p):
             g.shuffle(rows)     # a different row order per column: values are not monotone together
             if unique:
-                col = [1000.0 * (k + 1) + 10.0 * rows[r] + i + G.r2(g, 0, 0.4) for r in range(N)]
+                frac = G.r2(g, 0, 0.4) if form not in ("i8", "f4") else 0
+                col = [1000.0 * (k + 1) + 10.0 * rows[r] + i + (G.r2(g, 0, 0.4) if frac else 0) for r in range(N)]
             else:
                 col = [float(g.randint(0, 3) + 10 * k) for r in range(N)]
             cols.append(col)
-        data.append(np.array(cols, dtype=float).T.copy().reshape(N, p))
+        a = np.array(cols, dtype=float).T.copy().reshape(N, p)
+        if form == "i8":
+            a = a.astype(np.int64)
+        elif form == "f4":
+            a = a.astype(np.float32)
+        elif form == "F":
+            a = np.asfortranarray(a)
+        data.append(a)
     return data
 
 
@@ -646,8 +669,11 @@ def gen_net(g, cfg, nid):
     e = g.randint(1, 3)
     graph = gen_graph(g, p)
     data = gen_data(g, p, e, equal_sizes=g.random() < 0.4, unique=g.random() < 0.85)
-    return {"op": "net.new", "id": nid, "graph": enc(graph), "data": [enc(d) for d in data],
-            "verbose": g.random() < 0.15}, {"p": p, "e": e, "Ns": [len(d) for d in data]}
+    rec = {"op": "net.new", "id": nid, "graph": enc(graph), "data": [enc(d) for d in data],
+           "verbose": g.random() < 0.15}
+    if g.random() < 0.1:
+        rec["views"] = True
+    return rec, {"p": p, "e": e, "Ns": [len(d) for d in data]}
 
 
 def gen_n(g, meta, cfg=None):
@@ -796,7 +822,8 @@ REQUIRED_PROBES = ["sources>=2.independence_checkable", "sources>=2.independence
                    "seeded_pair.nontrivial", "seeded_pair.seed0", "seeded_pair.numpy_integer_seed", "seeded_pair.sep.global_reseed",
                    "seeded_pair.k>=2.non_source", "peer.k>=2.non_source", "peer_fault.fit", "verbose",
                    "sample_after_scribble_input", "n:none", "n:int", "n:list", "sweep.peer_fault_positions",
-                   "peer_fault.predict.raised"] + \
+                   "peer_fault.predict.raised", "data.non_contiguous_views", "data.fortran_order", "data.dtype:<i8",
+                   "data.dtype:<f4"] + \
                   ["invalid:" + k for k in sorted(INVALID_NEW)] + ["invalid:" + k for k in sorted(INVALID_N)]
 
 
